@@ -542,6 +542,18 @@ def run(ctx):
                 ctx.check(tag in want, 'C19.R8', '%s|%s tagged %s' % (rel, nm, tag), '%s:%s' % (rel, c.lineno), '%s is built with tag %s, which the request readers expect' % (nm, tag),
                           'the value bound to %s is built with tag %s, but the request readers decode that field under %s: the server leaves the item unread and refuses the request as invalid' % (nm, tag, sorted(want)))
     ctx.count('tagged_request_values_in_clients', n_tagged, 1)
+    # ---------------- C19.R9 (lifted from C05)
+    ctx.rule('C19.R9', 'the pie client hands back everything a successful response carried: the converters from wire structures to pie objects use every value they extract on every path (lifted from C05.R11)')
+    from ..report import Ctx as _LCtx_C19_R9
+    from . import c05 as _lsrc_C19_R9
+    _sub_C19_R9 = _LCtx_C19_R9('C05', 'quick', ctx.src, 0)
+    from ..report import run_lifted as _run_lifted
+    _run_lifted(ctx, _lsrc_C19_R9, _sub_C19_R9)
+    _lifted_C19_R9 = [f for f in _sub_C19_R9.findings if f.rule == 'C05.R11']
+    for f in _lifted_C19_R9:
+        ctx.fail('C19.R9', f.key, f.site, f.message)
+    if not _lifted_C19_R9:
+        ctx.ok('C19.R9', 'lifted from C05', 'converters drop nothing')
     ctx.not_decided += ['that the data returned on success equals the payload values (field-by-field naming of result objects is only checked for status/reason/message)']
     ctx.assumptions += ['socket.recv(n) returns at most n bytes and b"" at end of stream']
     check_optional_batch_item_fields(ctx, src.tree(PROXY))
